@@ -298,6 +298,19 @@ func main() {
 				if k.After && r.Chance(1, 2) {
 					k.Hold = 1500 // the machine dies after answering; the driver learns of the loss before it sees the answer
 				}
+				if j < 2 {
+					// directed: the machine that just answered a Worker.Run is lost, and the
+					// driver registers the loss before it processes the answer
+					var runs []int
+					for idx, m := range trace {
+						if m == "Worker.Run" {
+							runs = append(runs, idx)
+						}
+					}
+					if len(runs) > 0 {
+						k = Kill{At: runs[r.Intn(len(runs))], After: true, Target: "callee", Hold: 1500}
+					}
+				}
 				d := Desc{Prog: p, Procs: procs, Kills: []Kill{k}}
 				if r.Chance(1, 5) {
 					d.Kills = append(d.Kills, Kill{At: r.Intn(n), After: r.Bool(), Target: "callee"})
